@@ -13,6 +13,9 @@ theorem dec_dt (o : Opts) (fuel : Nat) (t : Ty) (bs : Bytes) (h : t.leafTag = no
     rename_i nm t'
     cases t' <;> simp [dec]
 
+theorem topNorm_id (t : Ty) (v : Val) (h1 : t ≠ .any) (h2 : ¬ (t = .error ∧ v = .nil)) : topNorm t v = some (t, v) := by
+  cases t <;> cases v <;> simp_all [topNorm]
+
 /-- edf.Decode ∘ edf.Encode -/
 theorem decodeRaw_encode (o : Opts) (hc : CachesConsistent o) (t : Ty) (v : Val) (bs rest : Bytes) (fuel : Nat)
     (he : encode o t v = some bs) (hd : DescOK o t) (hl : (encTy o t).length < 65536) (hg : Good o t v)
@@ -24,6 +27,9 @@ theorem decodeRaw_encode (o : Opts) (hc : CachesConsistent o) (t : Ty) (v : Val)
     obtain ⟨body, hb, rfl⟩ := he
     have hne : t ≠ .any := by
       intro h; subst h; simp at hcond
+    have hnn : ¬ (t = .error ∧ v = .nil) := by
+      intro ⟨h1, h2⟩; subst h1; subst h2; simp at hcond
+    have htn := topNorm_id t v hne hnn
     have ih := dec_encB o hc v t body rest fuel hb hg hf
     have hgd := getDecoder_hdr o hc t hd hl hne true (body ++ rest)
     unfold decodeRaw
@@ -31,8 +37,8 @@ theorem decodeRaw_encode (o : Opts) (hc : CachesConsistent o) (t : Ty) (v : Val)
     simp only
     by_cases hcomp : t.composite = true
     · have hlt : t.leafTag = none := by cases t <;> simp [Ty.composite] at hcomp <;> rfl
-      simp only [hcomp, ↓reduceIte, dec_dt o fuel t _ hlt hne, ih]
-    · simp only [hcomp, Bool.false_eq_true, ↓reduceIte, ih]
+      simp only [hcomp, ↓reduceIte, dec_dt o fuel t _ hlt hne, ih, htn]
+    · simp only [hcomp, Bool.false_eq_true, ↓reduceIte, ih, htn]
   · simp at he
 
 /-- `DescOK` without the restriction on map key types that the current decoder needs
